@@ -1020,10 +1020,20 @@ class _Subst2(ast.NodeTransformer):
 
 
 # ---------------------------------------------------------------------------------------------- T15
+def _is_platform_constant(e: ast.expr) -> bool:
+    """np.finfo(float).eps and its spellings: a value fixed by the floating-point format, as good as a literal"""
+    try:
+        t = ast.unparse(e).replace(" ", "")
+    except Exception:
+        return False
+    return t in ("np.finfo(float).eps", "np.finfo(np.float64).eps", "np.finfo(np.double).eps", "numpy.finfo(float).eps",
+                 "sys.float_info.epsilon", "np.finfo(float).tiny", "np.finfo(float).max", "sys.float_info.max", "sys.float_info.min")
+
+
 def _module_constants(tree: ast.Module) -> int:
     """NAME = <literal str / number> at module level (bound once, never declared global, not shadowed)  ->  the literal
     at its uses inside the module's functions"""
-    consts: Dict[str, ast.Constant] = {}
+    consts: Dict[str, ast.expr] = {}
     counts: Dict[str, int] = {}
     for s in tree.body:
         tg = s.targets if isinstance(s, ast.Assign) else [s.target] if isinstance(s, (ast.AnnAssign, ast.AugAssign)) else []
@@ -1032,7 +1042,8 @@ def _module_constants(tree: ast.Module) -> int:
                 if isinstance(n, ast.Name):
                     counts[n.id] = counts.get(n.id, 0) + 1
         if isinstance(s, (ast.Assign, ast.AnnAssign)) and getattr(s, "value", None) is not None and len(tg) == 1 and isinstance(tg[0], ast.Name) \
-                and isinstance(s.value, ast.Constant) and isinstance(s.value.value, (str, int, float)) and not isinstance(s.value.value, bool) \
+                and ((isinstance(s.value, ast.Constant) and isinstance(s.value.value, (str, int, float)) and not isinstance(s.value.value, bool))
+                     or _is_platform_constant(s.value)) \
                 and not tg[0].id.startswith("__"):
             consts[tg[0].id] = s.value
     for n in ast.walk(tree):
